@@ -47,6 +47,14 @@ func CopyLogs(ctx context.Context, dst, src raft.LogStore, batchBytes int, progr
 		return fmt.Errorf("failed getting last index: %w", err)
 	}
 
+	if last == 0 {
+		// The source log is empty (LogStores report 0 for both first and last
+		// index) so there is nothing to copy. Without this the loop below would
+		// try to read index 0 and fail.
+		update("DONE: source log is empty, nothing to copy")
+		return nil
+	}
+
 	batch := make([]*raft.Log, 0, 4096)
 	batchSize := 0
 	n := 0
